@@ -95,6 +95,18 @@ def c01_shapes(tier):
             words = [k + S(0)] if k.endswith('=') else [k, S(0)]
             shapes.append(('hx_pa_order', [perm, 0], lab('c01/order%d' % perm, words), {'pa_tmpl': tmpl('ok', ['%s=#0' % dst], ['d2'], words)}))
     shapes += c01_float_shapes(tier)
+    # values that contain '=' (also as first character), in every spelling; empty values
+    for words, slots, items in ((['--name=' + S(0) + '=' + S(1)], ['s1', 's2'], ['s=$0=$1']), (['--name==' + S(0)], ['s2'], ['s==$0']), (['--name=' + S(0) + '=' + S(1) + '=' + S(0), '-f'], ['s1', 's1'], ['s=$0=$1=$0', 'f=1']),
+                                (['-s', S(0) + '=' + S(1)], ['s1', 's2'], ['s=$0=$1']), (['-s' + S(0) + '=' + S(1)], ['s1', 's2'], ['s=$0=$1']), (['--name', S(0) + '='], ['s2'], ['s=$0=']), (['--nam=' + S(0) + '=='], ['s1'], ['s=$0==']),
+                                (['-s', ''], [], ['s=']), (['--name='], [], ['s=']), (['--name', '', '-f'], [], ['s=', 'f=1']), (['-fs', ''], [], ['s=', 'f=1']), (['-g', '--name=', '-n', S(0)], ['d2'], ['s=', 'g=1', 'n=#0'])):
+        shapes.append(('hx_pa', [0, 0], lab('c01/value with = or empty', words), {'pa_tmpl': tmpl('ok', items, slots, words)}))
+    # value mode 'command': the rest of the command line, joined by blanks, is the value
+    for words, slots, items in ((['-x', S(0)], ['s2'], ['k=$0', 'f=0']), (['-f', '-x', S(0), S(1)], ['s2', 's1'], ['k=$0 $1', 'f=1']), (['-x', S(0), '-f', '-n', S(1)], ['s2', 'd2'], ['k=$0 -f -n $1', 'f=0', 'n=_']),
+                                (['-n', S(1), '-x', S(0), '--name=' + S(0)], ['s2', 'd2'], ['k=$0 --name=$0', 'n=#1', 's=_']), (['-f', '-x', S(0), S(0)], ['s1'], ['k=$0 $0', 'f=1'])):     # (the library supports this value mode only for a short key alone in its word)
+        shapes.append(('hx_pa', [17, 0], lab('c01/command', words), {'pa_tmpl': tmpl('ok', items, slots, words)}))
+    for noabbr in (0, 1):
+        for line in range(7):
+            shapes.append(('hx_pa_subgroup', [noabbr, line], 'c01/subgroup/noabbr%d/line%d' % (noabbr, line)))
     return shapes
 
 
@@ -145,7 +157,16 @@ def pattern_shapes(sign):
         for words in (['-w', S(0)], ['--word=' + S(0)]):
             out.append(('hx_pa', [16, 0], lab('pattern w%s/len%d' % (sign, n), words), {'pa_tmpl': tmpl('patw' + sign, ['w=$0'] if sign == '+' else [], ['s%d' % n], words)}))
         out.append(('hx_pa', [16, 0], lab('pattern k%s/len%d' % (sign, n), ['-k', S(0)]), {'pa_tmpl': tmpl('patk' + sign, ['k=$0'] if sign == '+' else [], ['s%d' % n], ['-k', S(0), '-f'])}))
-    return [o for o in out if not (sign == '+' and ('/len1/' in o[2] or ('pattern k' in o[2] and '/len4/' in o[2])))]      # no member of that length
+    out = [o for o in out if not (sign == '+' and ('/len1/' in o[2] or ('pattern k' in o[2] and '/len4/' in o[2])))]      # no member of that length
+    # value lists: "fast,faster,Slow" ignoring the case (cfg 16 -m), "ab,cd,abc" exact (cfg 1 -w); letters symbolic
+    for n in ((1, 2, 3, 4, 5, 6) if sign == '-' else (4, 6)):
+        for words in (['-m', S(0)], ['--mode=' + S(0), '-f']):
+            out.append(('hx_pa', [16, 0], lab('value list (ignore case) %s/len%d' % (sign, n), words), {'pa_tmpl': tmpl('patm' + sign, ['s=$0'] if sign == '+' else [], ['a%d' % n], words)}))
+    for n in ((1, 2, 3, 4) if sign == '-' else (2, 3)):
+        out.append(('hx_pa', [1, 0], lab('value list %s/len%d' % (sign, n), ['-w', S(0)]), {'pa_tmpl': tmpl('patv' + sign, ['w=$0'] if sign == '+' else [], ['a%d' % n], ['-w', S(0)])}))
+    if sign == '-':
+        out.append(('hx_pa', [16, 0], 'value list (ignore case) -/empty', {'pa_tmpl': tmpl('throw', [], [], ['--mode=', '-f'])}))
+    return out
 
 
 def lab(prefix, words):
@@ -243,6 +264,11 @@ def c02_shapes(tier):
         shapes.append(('hx_pa', [0, 0], lab('c02/cfg0', words), {'pa_tmpl': tmpl('throw', [], slots, words)}))
     for words, slots in ((['-l', S(0), '-s', S(1)], ['d2', 's2']), (['-s', S(0), '-l', S(1), S(2)], ['s2', 'd1', 'd1']), (['-f'], []), (['-n', S(0)], ['d2'])):
         shapes.append(('hx_pa', [10, 0], lab('c02/cfg10', words), {'pa_tmpl': tmpl('throw', [], slots, words)}))
+    # a multi-value argument, then a flag, then a free value although no free-value argument is defined
+    for words, slots in ((['-v', S(0), S(1), '-f', S(2)], ['d2', 'd2', 'd2']), (['-e', S(0), '-f', S(1)], ['d2', 'd2']), (['--values', S(0), '--flag', S(1), S(2)], ['d1', 'd1', 'd1']), (['-e', S(0), '-t', S(1), S(2)], ['d2', 'd2', 'd2'])):
+        shapes.append(('hx_pa', [6, 32 << 8], lab('c02/cfg6 multi-value', words), {'pa_tmpl': tmpl('throw', [], slots, words)}))
+    for words, slots in ((['-b', S(0) + ',-' + S(1)], ['r1:0:7', 'r1:1:9']), (['--bits=-' + S(0)], ['r1:1:9']), (['-b-' + S(0)], ['r1:1:9']), (['-b', S(0)], ['r2:10:99']), (['-b', '18446744073709551615'], []), (['-b', '4294967296'], [])):
+        shapes.append(('hx_pa', [6, 0], lab('c02/bitset position', words), {'pa_tmpl': tmpl('throw', [], slots, words)}))
     # tuple destination: cardinality is exactly the number of elements (checked at the end of the evaluation)
     for words, slots in ((['-t', S(0)], ['d2']), (['-t', S(0) + ',' + S(1)], ['d1', 'd2']), (['--tuple=' + S(0) + ',' + S(1), '-f'], ['d2', 'd2']), (['-t', S(0) + ',' + S(1) + ',' + S(2) + ',' + S(3)], ['d1', 'd1', 'd1', 'd1']),
                          (['-t', S(0) + ',' + S(1) + ',' + S(2), '-t', S(3)], ['d1', 'd1', 'd1', 'd1'])):
@@ -275,6 +301,10 @@ def c03_shapes(tier):
     for words, slots, items in float_rules()[0]:
         shapes.append(('hx_pa', [15, 0], lab('c03/cfg15', words), {'pa_tmpl': tmpl('ok', items, slots, words)}))
     shapes += [(e, a, 'c03/' + l, d) for (e, a, l, d) in pattern_shapes('+')]
+    for words, slots, items in ((['-n', S(0), '\x02', '-n', S(1)], ['d2', 'd3'], ['n=#1']), (['-s', S(0), '-f', '\x02', '--name', S(1)], ['s2', 's3'], ['s=$1', 'f=1'])):
+        shapes.append(('hx_pa_argfile', [0, 0], lab('c03/arg-file override', words), {'pa_tmpl': tmpl('ok', items, slots, words)}))
+    for words, items in ((['-v', S(0), '--endvalues', S(1), '-e', S(2), '--endvalues', S(0)], ['v=7,#0', 'c=#2', 'fv=#1,#0']), (['-v', S(0), S(1), '--endvalues', S(2)], ['v=7,#0,#1', 'fv=#2'])):
+        shapes.append(('hx_pa', [6, 2 | ((32 | 64) << 8)], lab('c03/endvalues', words), {'pa_tmpl': tmpl('ok', items, ['d1', 'd2', 'd2'], words)}))
     # full keys with abbreviations disabled
     for words, slots, items in ((['--number', S(0), '--flag'], ['d2'], ['n=#0', 'f=1']), (['--name=' + S(0)], ['s3'], ['s=$0'])):
         shapes.append(('hx_pa', [0, 1], lab('c03/noabbr', words), {'pa_tmpl': tmpl('ok', items, slots, words)}))
@@ -308,6 +338,13 @@ def c04_shapes(tier):
     # floating point destinations: an arbitrary byte at every position of the value text
     for words in (['-d', S(0)], ['-d', '1' + S(0)], ['--double=1e' + S(0)], ['-x', S(0) + '5'], ['-x.' + S(0)], ['-r', '1.5' + S(0)], ['-r', S(0)]):
         shapes.append(('hx_pa', [15, 0], lab('c04/float', words), {'pa_tmpl': tmpl('safe', [], ['b1'], words)}))
+    # an argument with value mode 'command' at every position, also as the very last word (argv[argc] is the terminating null pointer)
+    for words in (['-x'], ['-f', '-x'], ['--exec'], ['-x', S(0)], ['-fx'], ['-n', S(0), '-x'], ['-x', S(0), S(1)], [S(0), '-x'], ['-x', '-x']):
+        shapes.append(('hx_pa', [17, 0], lab('c04/command', words), {'pa_tmpl': tmpl('safe', [], ['b2', 'b1'], words)}))
+    # bitset / vector<bool> positions with a sign, huge positions
+    for words, slots in ((['-b', S(0) + ',-' + S(1)], ['d1', 'd1']), (['--bits=-' + S(0)], ['d1']), (['-b-' + S(0)], ['d2']), (['-b', '-' + S(0)], ['d1']), (['-b', S(0)], ['b2']), (['-b', '18446744073709551615'], []), (['-b', '18446744073709551616'], []),
+                         (['-b', '4294967295'], []), (['-b', '4294967296,' + S(0)], ['d1']), (['-z-' + S(0)], ['d1']), (['--vbool=' + S(0) + ',-' + S(1)], ['d1', 'd1']), (['-a', S(0) + ',-' + S(1) + ',' + S(0) + ',' + S(1)], ['d1', 'd1'])):
+        shapes.append(('hx_pa', [6, 0], lab('c04/positions', words), {'pa_tmpl': tmpl('safe', [], slots, words)}))
     # sources: environment variable with arbitrary content; program-argument file that cannot be opened
     for l in (1, 2, 3):
         shapes.append(('hx_pa_env', [0, 0], 'c04/env%d' % l, {'pa_tmpl': tmpl('safe', [], ['b%d' % l], [S(0)])}))
@@ -333,6 +370,11 @@ def c05_shapes(tier):
                 shapes.append(('hx_pa_order', [perm, fl], lab('c05/p%d/f%d' % (perm, fl), [pre, '@0']), {'pa_tmpl': tmpl('throw', [], ['d2'], [pre, S(0)])}))
     for mode in range(11):
         shapes.append(('hx_pa_keys', [mode, 0], 'c05/keys/mode%d' % mode))
+    for form in range(12):
+        shapes.append(('hx_pa_keyspec', [form, 0], 'c05/keyspec/form%d' % form))
+    for noabbr in (0, 1):
+        for line in range(7):
+            shapes.append(('hx_pa_subgroup', [noabbr, line], 'c05/subgroup/noabbr%d/line%d' % (noabbr, line)))
     return shapes
 
 
@@ -362,6 +404,24 @@ def c06_shapes(tier):
                               (64 | 32, ['-e', S(0) + ',' + S(1), S(2), '-f'], ['c=#0,#1,#2', 'f=1', 'fv=_']), (64 | 32, [S(0), '-e', S(1), '--flag', S(2)], ['c=#1', 'fv=#0,#2', 'f=1']),
                               (64 | 32 | 1, ['-e', S(0), S(1), '-f', '-e', S(2)], ['c=#0,#1,#2', 'f=1']), (64, ['-v', S(0), S(1)], ['v=7,#0', 'fv=#1'])):
         shapes.append(('hx_pa', [6, opt << 8], lab('c06/multi', words), {'pa_tmpl': tmpl('ok', items, R[:3], words)}))
+    # empty elements (doubled, leading, trailing separator) are skipped, whatever the destination
+    for key, item, prev, tail in (('v', 'v', '7,', ''), ('e', 'c', '', ''), ('t', 'st', '', ''), ('a', 'arr', '', ',0'), ('y', 'sa', '', ',0')):
+        for words in (['-' + key, S(0) + ',,' + S(1)], ['-' + key, ',' + S(0) + ',' + S(1)], ['-' + key, S(0) + ',' + S(1) + ','], ['-' + key, S(0) + ',', '-' + key, ',' + S(1)], ['-' + key, ',,' + S(0) + ',,,' + S(1) + ',,']):
+            shapes.append(('hx_pa', [6, 0], lab('c06/empty elements', words), {'pa_tmpl': tmpl('ok', ['%s=%s#0,#1%s' % (item, prev, tail)], ['r2:10:19', 'r2:20:29'], words)}))
+    shapes.append(('hx_pa', [6, 0], 'c06/empty elements/-y @0,,@1,@2', {'pa_tmpl': tmpl('ok', ['sa=#0,#1,#2'], ['d1', 'd2', 'd3'], ['-y', S(0) + ',,' + S(1) + ',' + S(2)])}))
+    shapes.append(('hx_pa', [6, 0], 'c06/empty elements/-v ,', {'pa_tmpl': tmpl('ok', ['v=7'], [], ['-v', ','])}))
+    # sort + unique over several uses / lists: a duplicate inside a later list, after a smaller value (S1 < S2 < S0)
+    SU = ['r2:50:59', 'r2:10:19', 'r2:30:39']
+    for words, opt in ((['-v', S(0) + ',' + S(1), '-v', S(2) + ',' + S(2)], 0), (['-v', S(0) + ',' + S(1), S(2) + ',' + S(2)], 32), (['-v', S(0), '-v', S(1) + ',' + S(2), '-v', S(2) + ',' + S(1)], 0), (['-v', S(2) + ',' + S(0) + ',' + S(1) + ',' + S(0)], 0),
+                       (['-v', S(0) + ',' + S(1), '-v', S(2), '-v', S(0)], 0)):
+        shapes.append(('hx_pa', [6, (2 | 4 | opt) << 8], lab('c06/sort+unique', words), {'pa_tmpl': tmpl('ok', ['v=7,#1,#2,#0'], SU, words)}))
+        shapes.append(('hx_pa', [6, (2 | 8 | opt) << 8], lab('c06/sort+unique-err', words), {'pa_tmpl': tmpl('throw', [], SU, words)}))
+        ew = [w.replace('-v', '-e') for w in words]
+        shapes.append(('hx_pa', [6, (1 | 2 | 4 | opt) << 8], lab('c06/clear+sort+unique', ew), {'pa_tmpl': tmpl('ok', ['c=#1,#2,#0'], SU, ew)}))
+    # --endvalues ends the value list of a multi-value argument, every time it is used
+    for words, items in ((['-v', S(0), S(1), '--endvalues', S(2), '-f'], ['v=7,#0,#1', 'fv=#2', 'f=1']), (['-v', S(0), '--endvalues', S(1), '-e', S(2), S(0), '--endvalues', S(2)], ['v=7,#0', 'c=#2,#0', 'fv=#1,#2']),
+                         (['-e', S(0), S(1), '--endvalues', S(2), '-e', S(1), '--endvalues', S(0), '-f'], ['c=#0,#1,#1', 'fv=#2,#0', 'f=1'])):
+        shapes.append(('hx_pa', [6, 2 | ((32 | 64) << 8)], lab('c06/endvalues', words), {'pa_tmpl': tmpl('ok', items, SU, words)}))
     # unique: the same slot twice
     for words in (['-v', S(0) + ',' + S(1) + ',' + S(0)], ['-v', S(0), '-v', S(1), '-v', S(0)], ['-v', S(0) + ',' + S(0)]):
         exp = ['v=7,#0,#1'] if S(1) in ' '.join(words) else ['v=7,#0']
@@ -462,6 +522,18 @@ def c07_shapes(tier):
             shapes.append(('hx_pa_file', [0, 0], lab('c07/file two lines', words[:cut] + ['\x03'] + words[cut:]), {'pa_tmpl': tmpl('ok', items, slots, words[:cut] + ['\x03'] + words[cut:])}))
             shapes.append(('hx_pa_file', [0, 0], lab('c07/file+argv', words[:cut] + ['\x02'] + words[cut:]), {'pa_tmpl': tmpl('ok', items, slots, words[:cut] + ['\x02'] + words[cut:])}))
         shapes.append(('hx_pa_file', [0, 1], lab('c07/file no final newline', words), {'pa_tmpl': tmpl('ok', items, slots, words)}))
+    # program-argument file and environment variable both enabled (file present or not): env words | file words | argv words
+    for words, slots, items, mode in ((['-n', S(0), '\x02', '-f', '\x03', '-g'], ['d2'], ['n=#0', 'f=1', 'g=1'], 0), (['-n', S(0), '\x02', '-f', '\x03', '-g'], ['d2'], ['n=#0', 'f=0', 'g=1'], 1),
+                                      (['--name=' + S(0), '-f', '\x02', '\x03'], ['s2'], ['s=$0', 'f=1'], 1), (['-s', S(0), '\x02', '-n', S(1), '\x03', '-n', S(2)], ['s2', 'd2', 'd3'], ['s=$0', 'n=#2'], 0),
+                                      (['-n', S(0), '\x02', '\x03', '-n', S(1)], ['d2', 'd3'], ['n=#1'], 1), (['\x02', '-v', S(0), '\x03', '-f'], ['d2'], ['v=#0', 'f=1'], 0)):
+        shapes.append(('hx_pa_file_env', [0, mode], lab('c07/file%s+env' % ('' if mode == 0 else ' (missing)'), words), {'pa_tmpl': tmpl('ok', items, slots, words)}))
+    # an argument file named on the command line: same destinations as the words themselves; a later command line value overrides
+    for words, slots, items in lines:
+        shapes.append(('hx_pa_argfile', [0, 0], lab('c07/arg-file', words), {'pa_tmpl': tmpl('ok', items, slots, words + ['\x02'])}))
+    for words, slots, items, mode in ((['-n', S(0), '\x02', '-n', S(1)], ['d2', 'd3'], ['n=#1'], 0), (['-n', S(0), '-f', '\x02', '-n', S(1), '-g'], ['d2', 'd3'], ['n=#1', 'f=1', 'g=1'], 0), (['-s', S(0), '\x03', '-n', S(1), '\x02', '--name=' + S(2)], ['s2', 'd2', 's3'], ['s=$2', 'n=#1'], 0),
+                                      (['-f', '\x02', '-g', '-n', S(0)], ['d2'], ['f=1', 'g=1', 'n=#0'], 1), (['-o', S(0), '\x02', '-o', S(1)], ['d1', 'd2'], ['o=#1'], 0)):
+        shapes.append(('hx_pa_argfile', [0, mode], lab('c07/arg-file+argv%d' % mode, words), {'pa_tmpl': tmpl('ok', items, slots, words)}))
+    shapes.append(('hx_pa_argfile', [0, 0], 'c07/arg-file bad int', {'pa_tmpl': tmpl('throw', [], ['a2'], ['-n', S(0), '\x02', '-f'])}))
     # override: the command line value wins, without a cardinality error
     shapes.append(('hx_pa_env', [0, 0], 'c07/env override', {'pa_tmpl': tmpl('ok', ['n=#1'], ['d2', 'd3'], ['-n', S(0), '\x02', '-n', S(1)])}))
     shapes.append(('hx_pa_env', [0, 0], 'c07/env override string', {'pa_tmpl': tmpl('ok', ['s=$1', 'f=1'], ['s2', 's3'], ['--name=' + S(0), '-f', '\x02', '-s', S(1)])}))
